@@ -156,8 +156,10 @@ static void randomCase(Rng &rng, CaseResult &r, bool zeros) {
   bool huge = rng.chance(0.1);
   if (huge) { qmax = 4000000000LL; pmax = std::min<ll>(pmax, 1000); }  // totals beyond 32 bits; positions small so that the 64-bit reference cost cannot overflow
   std::vector<ll> u(S), v(K), s(S), d(K);
-  for (auto &x : u) x = rng.range(0, pmax);
-  for (auto &x : v) x = rng.range(0, pmax);
+  // positions on either side of the origin in half of the cases (placement areas left of / below the origin)
+  ll shift = rng.chance(0.5) ? 0 : (rng.chance(0.5) ? pmax / 2 : rng.range(0, pmax + 3));
+  for (auto &x : u) x = rng.range(0, pmax) - shift;
+  for (auto &x : v) x = rng.range(0, pmax) - shift;
   if (rng.chance(0.2)) { std::sort(u.begin(), u.end()); std::sort(v.begin(), v.end()); }
   for (auto &x : s) x = (zeros && rng.chance(0.2)) ? 0 : rng.range(1, qmax);
   for (auto &x : d) x = (zeros && rng.chance(0.2)) ? 0 : rng.range(1, qmax);
@@ -183,7 +185,12 @@ static void randomCase(Rng &rng, CaseResult &r, bool zeros) {
 }
 
 // exhaustive: <= 3 sources x <= 3 sinks, positions 0..2, supplies / demands 0..2. case = (S, K, positions) ; inner loop over all supply/demand vectors
-static void exhaustiveCase(uint64_t idx, CaseResult &r) {
+static void exhaustiveCase(uint64_t idx0, CaseResult &r) {
+  // 3 windows of positions: {0,1,2}, {-1,0,1}, {-3,-2,-1}
+  static const uint64_t perWindow = 1521;
+  int window = (int)(idx0 / perWindow);
+  uint64_t idx = idx0 % perWindow;
+  ll base = window == 0 ? 0 : window == 1 ? -1 : -3;
   int S = -1, K = -1;
   uint64_t rest = idx;
   bool found = false;
@@ -195,8 +202,8 @@ static void exhaustiveCase(uint64_t idx, CaseResult &r) {
     }
   if (!found) { r.sig = "none"; return; }
   std::vector<ll> u(S), v(K);
-  for (auto &x : u) { x = rest % 3; rest /= 3; }
-  for (auto &x : v) { x = rest % 3; rest /= 3; }
+  for (auto &x : u) { x = base + (ll)(rest % 3); rest /= 3; }
+  for (auto &x : v) { x = base + (ll)(rest % 3); rest /= 3; }
   r.sig = "u" + vf::jarr(u) + "v" + vf::jarr(v);
   if (r.needSample()) r.sample = vf::J::obj().kraw("source_pos", vf::jarr(u)).kraw("sink_pos", vf::jarr(v)).kv("what", "every supply and demand vector with entries 0..2").str();
   if (r.dumpOnly) return;
